@@ -243,6 +243,9 @@ func checkPrefixes(t *tally, list []string, probes []netip.Addr, tmpdir string, 
 }
 
 func prefixParts(c *harness.Check) {
+	if !want("prefixes") {
+		return
+	}
 	vocab := prefixVocab(c)
 	probes := prefixProbes(vocab)
 	tmproot, err := os.MkdirTemp("", "verif-c10-")
